@@ -12,6 +12,13 @@ written from the property statement.  Besides the selected/ordered `_uid` sequen
     sequence again.
 Adversarial seeds are computed by inverting coba's LCG so that the uniform 0.0 / the largest uniform lands on
 each draw that Shuffle, Riffle and Reservoir's Algorithm L consume.
+
+Every fifth case is a COLLECTION case (check_collection): the Environments.<f>() shortcut is called ONCE over two or
+three different environments (disjoint `_uid` ranges) and the resulting environments are read in varying orders, more
+than once, sequentially / interleaved item by item / after abandoned partial reads.  Each environment's output is
+judged against the reference model of its own input, so state that leaks from one environment of a collection into
+another (a filter object or cache shared by the pipelines) shows up as `sibling-environment-item`, lost / extra items
+or a seed that no longer reproduces the answer of a fresh filter.
 """
 from collections import Counter
 
@@ -22,14 +29,21 @@ RULE  = ("one case = one generated environment (length 0..60; simulated/logged/g
          "configuration (Shuffle, Riffle, Sort, Take, Slice, Reservoir, Where, Cache, Chunk, Params, Identity, "
          "Batch+Unbatch) run through every access path (pipes class, environments.filters class, Environments "
          "shortcut raw + finalized) and two input forms (list / one-shot iterator); distinct & non-trivial = "
-         "distinct (filter, parameter class, length class, interaction kind, context kind) with length >= 2")
-PLAN  = {"quick":    {"shards": 16, "cases": 24000,   "timeout": 600,  "budget_s": 80},
-         "thorough": {"shards": 16, "cases": 1000000, "timeout": 3000, "budget_s": 800}}
+         "distinct (filter, parameter class, length class, interaction kind, context kind) with length >= 2.  Every "
+         "fifth case is a COLLECTION: one Environments.<f>() shortcut call over 2-3 different environments (disjoint "
+         "_uid ranges, same or mixed schema), the resulting environments read in 2-3 rounds (permuted sequential "
+         "order / item-by-item interleaved / abandoned partial reads), each read judged against its own input; "
+         "distinct = (filter, parameter class, #environments, round modes, mixed schema, multi-seed)")
+PLAN  = {"quick":    {"shards": 16, "cases": 30000,   "timeout": 600,  "budget_s": 80},
+         "thorough": {"shards": 16, "cases": 1250000, "timeout": 3000, "budget_s": 800}}
 FILTERS = ["Shuffle", "Riffle", "Sort", "Take", "Slice", "Reservoir", "Where", "Cache", "Chunk", "Params", "Identity", "BatchUnbatch"]
 REQUIRED = [f"oracle.{f}" for f in FILTERS] + [
     "oracle.content-preserved", "oracle.input-snapshot", "oracle.determinism", "oracle.seed.adversarial",
     "oracle.Reservoir.algorithm-L-entered", "reach.Reservoir.all-initial-members-replaced", "oracle.Where.drop", "oracle.Where.pass", "oracle.Sort.ties",
-    "via.pipes", "via.envf", "via.shortcut", "via.shortcut-finalized", "input.list", "input.iter"]
+    "via.pipes", "via.envf", "via.shortcut", "via.shortcut-finalized", "input.list", "input.iter"] + \
+    [f"oracle.collection.{f}" for f in FILTERS] + [
+    "collection.first-read", "collection.after-sibling", "collection.re-read", "collection.interleaved",
+    "collection.round.partial", "collection.raw", "collection.finalized", "collection.mixed-schema"]
 ASSUMPTIONS = [
     "which permutation / which sample a seed yields is not asserted, only that it is a permutation (resp. min(n,N) distinct members) of the input and reproducible; seed=None is excluded",
     "Sort: keys exist in every dense context; sparse contexts take 0 for an absent key; sparse contexts without keys, and scalar contexts, only have to come out as a permutation (order unspecified); sort-key columns hold one orderable type; None/scalar contexts are sorted without keys only",
@@ -38,6 +52,7 @@ ASSUMPTIONS = [
     "content equality is type-strict on values (list vs tuple, int vs float) but ignores the dict subclass of the interaction and its key order (Cache copies, Batch+Unbatch rebuild the dict)",
     "legal parameters only: counts/start/stop >= 0 or None, step >= 1, spacing >= 0, batch size >= 0 or None, integer seeds >= 0 for Shuffle, int/float seeds for Riffle and Reservoir",
     "Reservoir inputs are at most 60 long, so float-rounding corners of Algorithm L that need > 10^7 items are out of reach",
+    "collections: the members of one collection are different Environment objects with disjoint _uid ranges; for Sort and Where they share one schema (the keys / bounds are legal for that schema); reading the environments an Environments shortcut returns in any order, repeatedly, lazily side by side, or abandoning a read, is ordinary use and must not change what any of them yields; for seeded filters 'determined by the seed' is taken as: equal to what a fresh environments.filters instance with that seed yields on the same input",
 ]
 
 M, A, C_ = 2**30, 116646453, 9
@@ -59,21 +74,32 @@ def gen_len(rng):
     if r < .90: return rng.randint(13, 40)
     return rng.randint(41, 60)
 
-def gen_env(rng):
-    n    = gen_len(rng)
-    kind = rng.choice(["sim", "sim", "log", "log", "grd"])
-    ctx  = rng.choice(["none", "scalar", "dense", "dense", "tuple", "sparse", "sparse"])
-    rwd  = rng.choice(["list", "list", "discrete", "binary"])
-    akind = rng.choice(["int", "str", "vec"])
-    const_actions = rng.random() < .3
-    has_actions = kind != "log" or rng.random() < .6
-    has_prob    = rng.random() < .7
-    has_tag     = rng.random() < .3
-    d = rng.randint(1, 4)
-    coltypes = [rng.choice(["int", "int", "float", "str"]) for _ in range(d)]
-    skeys = rng.sample(["a", "b", "c", "d"], rng.randint(1, 4))
-    uniform_sparse = rng.random() < .5
-    scalar_type = rng.choice(["int", "float", "str"])
+_SCHEMA_KEYS = ("kind", "ctx", "rwd", "akind", "const_actions", "has_actions", "has_prob", "has_tag", "d", "coltypes",
+                "skeys", "uniform_sparse", "scalar_type", "na_const")
+
+def gen_env(rng, like=None, n=None, uid_base=100):
+    """one environment spec.  like = an earlier spec whose schema (interaction kind, context kind, column types, ...)
+    is re-used with fresh values; uid_base keeps the _uid ranges of the members of one collection apart."""
+    if n is None: n = gen_len(rng)
+    if like is not None:
+        sc = like["schema"]
+    else:
+        sc = {}
+        sc["kind"] = rng.choice(["sim", "sim", "log", "log", "grd"])
+        sc["ctx"]  = rng.choice(["none", "scalar", "dense", "dense", "tuple", "sparse", "sparse"])
+        sc["rwd"]  = rng.choice(["list", "list", "discrete", "binary"])
+        sc["akind"] = rng.choice(["int", "str", "vec"])
+        sc["const_actions"] = rng.random() < .3
+        sc["has_actions"] = sc["kind"] != "log" or rng.random() < .6
+        sc["has_prob"]    = rng.random() < .7
+        sc["has_tag"]     = rng.random() < .3
+        sc["d"] = rng.randint(1, 4)
+        sc["coltypes"] = [rng.choice(["int", "int", "float", "str"]) for _ in range(sc["d"])]
+        sc["skeys"] = rng.sample(["a", "b", "c", "d"], rng.randint(1, 4))
+        sc["uniform_sparse"] = rng.random() < .5
+        sc["scalar_type"] = rng.choice(["int", "float", "str"])
+        sc["na_const"] = rng.randint(1, 4)
+    kind, ctx, rwd, akind, const_actions, has_actions, has_prob, has_tag, d, coltypes, skeys, uniform_sparse, scalar_type, na_const = (sc[k] for k in _SCHEMA_KEYS)
     def val(t):
         if t == "int":   return rng.randint(0, 2)
         if t == "float": return rng.choice([0.0, 0.5, -1.5, 2.25])
@@ -86,8 +112,7 @@ def gen_env(rng):
         ks = skeys if uniform_sparse else [k for k in skeys if rng.random() < .7]
         return {"s": {k: rng.choice([1, 2, 3, 0.5, -1]) for k in ks}}
     pool = {"int": [0, 1, 2, 3, 4], "str": ["a", "b", "c", "d", "e"], "vec": [[1, 0, 0], [0, 1, 0], [0, 0, 1], [1, 1, 0], [0, 1, 1]]}[akind]
-    na_const = rng.randint(1, 4)
-    uids = rng.sample(range(100, 100 + 3 * max(n, 1)), n)
+    uids = rng.sample(range(uid_base, uid_base + 3 * max(n, 1)), n)
     rows = []
     for i in range(n):
         na = na_const if const_actions else rng.randint(1, 4)
@@ -106,7 +131,7 @@ def gen_env(rng):
         if has_tag: row["tag"] = rng.choice(["p", "q"])
         rows.append(row)
     return {"kind": kind, "ctx": ctx, "rwd": rwd, "akind": akind, "d": d, "coltypes": coltypes, "skeys": skeys,
-            "has_actions": has_actions, "rows": rows}
+            "has_actions": has_actions, "rows": rows, "schema": sc}
 
 def _near(rng, n, none=True):
     c = [0, 1, 2, max(n - 1, 0), n, n + 1, n + 5, rng.randint(0, max(n, 1))]
@@ -124,9 +149,9 @@ def gen_seed(rng, positions, int_only=False):
     if r < .65 and not int_only: return rng.choice([1.5, 2.0, 0.25]), "float", None
     return rng.randrange(M), "plain", None
 
-def gen_filter(rng, env):
+def gen_filter(rng, env, name=None):
     n = len(env["rows"])
-    name = rng.choice(["Shuffle", "Riffle", "Sort", "Sort", "Take", "Take", "Slice", "Slice", "Reservoir", "Reservoir", "Reservoir",
+    name = name or rng.choice(["Shuffle", "Riffle", "Sort", "Sort", "Take", "Take", "Slice", "Slice", "Reservoir", "Reservoir", "Reservoir",
                        "Where", "Where", "Where", "Cache", "Chunk", "Params", "Identity", "BatchUnbatch", "BatchUnbatch"])
     f = {"name": name, "input": rng.choice(["list", "iter"])}
     if name == "Shuffle":
@@ -198,6 +223,42 @@ def gen_filter(rng, env):
 def gen_case(rng):
     env = gen_env(rng)
     return {"env": env, "filter": gen_filter(rng, env)}
+
+def gen_collection(rng, env0=None):
+    """a COLLECTION case: two or three different environments (disjoint _uid ranges) behind ONE Environments.<f>()
+    shortcut call, plus the order in which the resulting environments are read (several rounds: sequentially in a
+    permuted order, interleaved item by item, or abandoned after a few items)."""
+    env0 = env0 or gen_env(rng)
+    name = rng.choice(FILTERS)
+    f = gen_filter(rng, env0, name)
+    n0 = len(env0["rows"])
+    # Sort keys / Where bounds are legal for env0's schema only: its siblings share the schema there
+    mixed = name not in ("Sort", "Where") and rng.random() < .35
+    envs = [env0]
+    for j in range(1, rng.choice([2, 2, 3])):
+        n = max(0, n0 + rng.choice([-1, 0, 1])) if rng.random() < .3 else gen_len(rng)
+        envs.append(gen_env(rng, like=None if mixed else env0, n=n, uid_base=100 + 1000 * j))
+    npipes = len(envs) * len(_shortcut_seeds(f))
+    rounds = []
+    for r in range(rng.choice([2, 2, 3])):
+        mode = rng.choice(["seq", "seq", "seq", "interleave", "partial"] if r == 0 else ["seq", "seq", "interleave"])
+        rd = {"mode": mode, "perm": rng.sample(range(npipes), npipes)}
+        if mode == "partial": rd["k"] = rng.choice([0, 1, 2, 5, 26])
+        rounds.append(rd)
+    return {"envs": envs, "filter": f, "rounds": rounds, "finalized": rng.random() < .5, "mixed": mixed}
+
+def _shortcut_seeds(f):
+    """the seeds for which the Environments shortcut of `f` makes one environment each ([None]: not a seeded family)"""
+    name = f["name"]
+    if name == "Shuffle":
+        form, s = f["form"], f["seed"]
+        if form in ("seed", "seed_kw"): return [s]
+        if form == "default":           return [1]
+        if form == "n":                 return list(range(f["nshuf"]))
+        return list(dict.fromkeys([s] + list(f["more"])))
+    if name == "Reservoir": return [f["seed"]] + [x for x in f["more"] if x != f["seed"]]
+    if name == "Riffle":    return [f["seed"]]
+    return [None]
 
 # ===================================================================================== building real coba objects
 def _dec_ctx(c):
@@ -379,17 +440,17 @@ def _len_class(N):
 
 # ===================================================================================== running the real code
 _ENV_CLS = {}
-def _cell_env(cell):
+def _cell_env(cell, params=None):
     """an Environment whose read() hands out whatever the harness put into `cell` (list or one-shot iterator)"""
     from coba.primitives import Environment
     if "cls" not in _ENV_CLS:
         class ListEnvironment(Environment):
-            def __init__(self, cell): self._cell = cell
+            def __init__(self, cell, params): self._cell, self._params = cell, dict(params or {})
             @property
-            def params(self): return {}
+            def params(self): return dict(self._params)
             def read(self): return self._cell["items"] if self._cell["form"] == "list" else iter(self._cell["items"])
         _ENV_CLS["cls"] = ListEnvironment
-    return _ENV_CLS["cls"](cell)
+    return _ENV_CLS["cls"](cell, params)
 
 def _where_arg(arg):
     if arg is None: return None
@@ -431,6 +492,7 @@ def _short_runner(mk, pick, finalized):
         from coba.environments.filters import BatchSafe, Finalize
         run.finalized = any(isinstance(p, BatchSafe) and isinstance(p._filter, Finalize) for p in pipe)
         return run
+    build.mk = mk
     return build
 
 def plans(f):
@@ -666,6 +728,180 @@ def check_case(spec, ctx=None):
         out.append((full, "; ".join(per_via[v] for v in vs)[:1500]))
     return out
 
+# ===================================================================================== collections of environments
+def check_collection(spec, ctx=None):
+    """ONE Environments.<f>() call over two or three DIFFERENT environments; the resulting environments are read in the
+    spec's order (sequential rounds in permuted orders, item-by-item interleaved rounds, abandoned partial reads), every
+    one more than once.  Each complete read is judged against the reference model of ITS OWN input: an environment
+    must come out the same whether it is read first, after a sibling, again, or side by side with its siblings."""
+    envs, f, rounds = spec["envs"], spec["filter"], spec["rounds"]
+    name = f["name"]
+    def note(n, k=1):
+        if ctx: ctx.count(n, k)
+    _quiet()
+    from coba.environments import Environments
+    from coba.environments.filters import BatchSafe, Finalize
+    seeded = name in ("Shuffle", "Riffle", "Reservoir")
+    seeds = _shortcut_seeds(f)
+    keys = [(j, s) for j in range(len(envs)) for s in seeds]
+    finalized = bool(spec.get("finalized"))
+    key_now = (name, "collection", len(envs), tuple(r["mode"] for r in rounds), bool(spec.get("mixed")), len(seeds) > 1,
+               "" if name in ("Cache", "Chunk") else pclass(f, envs[0]))
+    nontrivial = sum(1 for e in envs if len(e["rows"]) >= 1) >= 2
+    if not all(_finalize_transparent(e) for e in envs):      # Finalize is not C09's subject (see check_case)
+        if name == "Shuffle":                                # Environments.shuffle always hands out finalized pipelines
+            note("collection.skipped-finalize-not-transparent")
+            if ctx: ctx.case(key_now + ("skipped",), nontrivial=False)
+            return []
+        finalized = False
+    fails = {}
+    def fail(j, when, mode, what, reason=""):
+        pc = "" if name in ("Cache", "Chunk") or j is None else pclass(f, envs[j], reason)
+        pc = "/".join(x for x in pc.split("/") if x and not x.startswith("seed="))
+        sig = name + (f"/{pc}" if pc else "") + "/collection" + (f"/{when}" if when else "") + \
+              (f"/{_where_tag(reason)}" if _where_tag(reason) else "") + f"/mode={mode}"
+        fails.setdefault(sig, what)
+
+    bases  = [build_env(e) for e in envs]
+    snaps  = [[canon(i) for i in b] for b in bases]
+    ids    = [[id(i) for i in b] for b in bases]
+    by_uid = [{i["_uid"]: c for i, c in zip(b, sn)} for b, sn in zip(bases, snaps)]
+    owner  = {u: j for j, d in enumerate(by_uid) for u in d}
+    cells  = [{"items": b, "form": f["input"]} for b in bases]
+    pl = plans(f)
+    mk = next(b.mk for via, _, b in pl if via == "shortcut")
+    fresh_build = {}
+    for via, seed, b in pl:
+        if via == "envf": fresh_build.setdefault(repr(seed), b)
+
+    def finish():
+        if ctx: ctx.case(key_now, nontrivial=nontrivial)
+        return [(sig, what[:1500]) for sig, what in fails.items()]
+
+    # ---- one shortcut call over the whole collection
+    try:
+        made  = mk(Environments([_cell_env(c, {"src": j}) for j, c in enumerate(cells)]))
+        pipes = list(made) if finalized else list(made._envs)
+        table = {}
+        for p in pipes:
+            prm = p.params
+            j = prm.get("src")
+            if len(seeds) == 1: s = seeds[0]
+            else:
+                ps = prm.get("shuffle_seed", prm.get("reservoir_seed"))
+                s = next((x for x in seeds if x == ps), ("?", repr(ps)))
+            if (j, s) in table or (j, s) not in keys: raise AssertionError(f"unexpected / repeated environment (src={j}, seed={s})")
+            table[(j, s)] = p
+        if len(table) != len(keys): raise AssertionError(f"shortcut produced {len(table)} environments instead of {len(keys)}")
+    except Exception as e:
+        fail(None, "build", f"raise:{type(e).__name__}", f"{type(e).__name__}: {e}")
+        return finish()
+    note("collection.finalized" if finalized else "collection.raw")
+    if spec.get("mixed"): note("collection.mixed-schema")
+    is_fin = {k: any(isinstance(x, BatchSafe) and isinstance(x._filter, Finalize) for x in p) for k, p in table.items()}
+
+    expected_same = {}           # (src, seed) -> uid sequence the seed has to reproduce
+    def seed_answer(key):
+        if key not in expected_same:
+            j, s = key
+            try:    expected_same[key] = [o["_uid"] for o in fresh_build[repr(s)]()(build_env(envs[j]), "list")]
+            except Exception: expected_same[key] = None      # the single-environment cases report that
+        return expected_same[key]
+
+    def judge(key, items, when):
+        j, s = key
+        kind, U, k, reason = reference(f, envs[j], s)
+        tag = f"environment #{j}" + (f" seed {s}" if s is not None else "") + f" ({when})"
+        got = []
+        for o in items:
+            u = o.get("_uid") if isinstance(o, dict) else None
+            if u is None or u not in owner:
+                fail(j, when, "foreign-item", f"{tag}: output item is not an input interaction: {repr(o)[:200]}"); return
+            if owner[u] != j:
+                fail(j, when, "sibling-environment-item", f"{tag}: the output holds interaction _uid={u} of environment #{owner[u]}; "
+                     f"own input {U}, output uids {[x.get('_uid') for x in items if isinstance(x, dict)][:40]}"); return
+            got.append(u)
+            if not is_fin[key]:
+                note("oracle.content-preserved")
+                co = canon(o)
+                if co != by_uid[j][u]:
+                    fail(j, when, "content-altered", f"{tag}: interaction _uid={u} differs in keys {_diff(co, by_uid[j][u])}"); return
+        note("oracle.collection"); note(f"oracle.collection.{name}"); note(f"collection.{when}")
+        if kind == "unspecified":
+            alo, ahi = _bounds(f["n_actions"])
+            keep = [r["u"] for r in envs[j]["rows"] if f["n_actions"] is None or _inside(len(r["a"]), alo, ahi)]
+            if got and got != keep: fail(j, when, "partial-drop", f"{tag}: got {got}, neither nothing nor {keep}", reason)
+            return
+        mode = _judge(kind, U, k, got)
+        if mode and name == "Where" and reason.startswith("pass"):
+            env_level = f["n_interactions"] is not None or f["n_features"] is not None
+            reason, mode = ("pass-but-dropped", "dropped-entirely") if not got and env_level else ("pass-wrong-selection", mode)
+        if mode:
+            fail(j, when, mode, f"{tag}: expected {kind} {('of size %d from ' % k) if kind == 'subset' else ''}{U}, got {got}" +
+                 (f" [{reason}]" if reason else ""), reason)
+            return
+        if seeded:
+            want = seed_answer(key)
+            if want is not None:
+                note("oracle.determinism")
+                if want != got: fail(j, when, "nondeterministic", f"{tag}: a fresh filter with this seed gives {want} on this input, the collection gave {got}")
+
+    # ---- the reads
+    started = set(); any_read = False
+    def when_of(key): return "first-read" if not any_read else "re-read" if key in started else "after-sibling"
+    for rd in rounds:
+        order = [keys[i] for i in rd["perm"]]
+        note(f"collection.round.{rd['mode']}")
+        if rd["mode"] == "seq":
+            for key in order:
+                when = when_of(key)
+                try:    items = list(table[key].read())
+                except Exception as e:
+                    fail(key[0], when, f"raise:{type(e).__name__}", f"environment #{key[0]} ({when}): {type(e).__name__}: {e}"); items = None
+                any_read = True; started.add(key)
+                if items is not None: judge(key, items, when)
+        elif rd["mode"] == "partial":
+            for key in order:
+                when = when_of(key)
+                try:
+                    it = iter(table[key].read())
+                    for _ in range(rd["k"]):
+                        try: next(it)
+                        except StopIteration: break
+                    if hasattr(it, "close"): it.close()
+                except Exception as e:
+                    fail(key[0], when, f"raise:{type(e).__name__}", f"environment #{key[0]} (abandoned read, {when}): {type(e).__name__}: {e}")
+                any_read = True; started.add(key)
+        else:
+            its, outs = {}, {}
+            for key in order:
+                try:    its[key] = iter(table[key].read()); outs[key] = []
+                except Exception as e:
+                    fail(key[0], "interleaved", f"raise:{type(e).__name__}", f"environment #{key[0]} (interleaved): {type(e).__name__}: {e}")
+            live = [k_ for k_ in order if k_ in its]
+            while live:
+                for key in list(live):
+                    try: outs[key].append(next(its[key]))
+                    except StopIteration: live.remove(key)
+                    except Exception as e:
+                        fail(key[0], "interleaved", f"raise:{type(e).__name__}", f"environment #{key[0]} (interleaved): {type(e).__name__}: {e}")
+                        live.remove(key); outs.pop(key)
+            any_read = True; started.update(its)
+            for key in order:
+                if key in outs: judge(key, outs[key], "interleaved")
+
+    # ---- inputs untouched
+    for j, (b, sn, idl) in enumerate(zip(bases, snaps, ids)):
+        note("oracle.input-snapshot")
+        if cells[j]["items"] is not b or len(b) != len(idl) or any(id(x) != y for x, y in zip(b, idl)):
+            fail(j, "", "input-list-mutated", f"environment #{j}: the input list was re-ordered / resized")
+        else:
+            for i, (x, c) in enumerate(zip(b, sn)):
+                c2 = canon(x)
+                if c2 != c:
+                    fail(j, "", "input-interaction-mutated", f"environment #{j}: input interaction #{i} changed in keys {_diff(c, c2)}"); break
+    return finish()
+
 def _det_group(via):
     # the environments.filters class and both shortcut pipelines hold the same filter class: same seed, same answer.
     # (pipes.Shuffle and environments.filters.Shuffle are different filters for logged data: not compared.)
@@ -695,7 +931,7 @@ def _quiet():
 # ===================================================================================== entry points
 def run_shard(ctx):
     _quiet()
-    i = 0
+    i = 0; ncoll = 0; sampled_coll = False
     while i < ctx.n and ctx.time_left() > 0:
         env = gen_env(ctx.rng)
         for _ in range(4):                     # four filter configurations per generated environment
@@ -710,8 +946,22 @@ def run_shard(ctx):
             if i < 3: ctx.sample({"filter": spec["filter"], "kind": env["kind"], "ctx": env["ctx"], "n": len(env["rows"]), "first_rows": env["rows"][:2]})
             for sig, what in v: ctx.violation(sig, what, spec)
             i += 1
-    ctx.count("cases", i)
+        if i < ctx.n:                          # ... and one collection of environments built around it
+            spec = gen_collection(ctx.rng, env)
+            try:
+                v = check_collection(spec, ctx)
+            except Exception as e:
+                import traceback
+                ctx.note_inconclusive(f"harness-exception {type(e).__name__}: {e} :: {traceback.format_exc()[-800:]} :: collection {spec['filter']}")
+                v = []
+            if not sampled_coll:
+                sampled_coll = True
+                ctx.sample({"collection": [len(e["rows"]) for e in spec["envs"]], "filter": spec["filter"], "rounds": spec["rounds"],
+                            "finalized": spec["finalized"], "mixed": spec["mixed"]})
+            for sig, what in v: ctx.violation(sig, what, spec)
+            i += 1; ncoll += 1
+    ctx.count("cases", i); ctx.count("cases.collection", ncoll)
     if i < ctx.n: ctx.extra["cases_skipped_for_time"] = ctx.n - i
 
 def replay(witness):
-    return check_case(witness)
+    return check_collection(witness) if "envs" in witness else check_case(witness)
